@@ -139,6 +139,7 @@ def loop_relations(py, cls: str):
     fn = py.classes[cls].methods.get("add_node")
     if fn is None:
         raise AnalysisError(f"{cls}.add_node not found")
+    fn = py.ifunc(f"{cls}.add_node")      # canonical form: a shared helper that queues the neighbours is part of each add_node
     out = []
 
     def rel_of_iter(it: ast.AST) -> Optional[str]:
@@ -147,6 +148,10 @@ def loop_relations(py, cls: str):
             e = e.args[0]
         if isinstance(e, ast.Call) and isinstance(e.func, ast.Attribute) and e.func.attr in ("keys", "items"):
             e = e.func.value
+        if isinstance(e, ast.Name):      # a relation hoisted into a local: `users = getattr(node, "used_by", [])`
+            vals = [v for _t, v in astq.assignments(fn, e.id) if v is not None]
+            if len(vals) == 1:
+                return rel_of_iter(vals[0])
         if isinstance(e, ast.Call) and call_name(e) == "getattr" and len(e.args) >= 2 and \
                 ast.unparse(e.args[0]) == "node" and isinstance(e.args[1], ast.Constant):
             return e.args[1].value
@@ -238,7 +243,7 @@ def graph_classes(py) -> List[str]:
 def r3_edges(ctx, rep):
     py = ctx.py
     for cls in graph_classes(py):
-        fn = py.classes[cls].methods["add_node"]
+        fn = py.ifunc(f"{cls}.add_node")
         for n in ast.walk(fn):
             if not (isinstance(n, ast.Call) and call_name(n) == "hop_edges.append"):
                 continue
@@ -272,7 +277,7 @@ def r3_edges(ctx, rep):
     # a neighbour joins the hop only if it is not in the graph yet: the node limit counts len(hop) + len(self.added), so a
     # node that is already drawn must not be counted again (sibling agreement of the `not in self.added` guard)
     for cls in graph_classes(py):
-        fn = py.classes[cls].methods["add_node"]
+        fn = py.ifunc(f"{cls}.add_node")
         for n in ast.walk(fn):
             if not (isinstance(n, ast.Call) and call_name(n) == "hop_nodes.add" and n.args):
                 continue
@@ -380,7 +385,7 @@ def r5_sorted_emission(ctx, rep):
                 f"nodes/edges: edge order in the graph source differs between runs"), py.nloc(st))
 
     for cls in graph_classes(py):
-        fn = py.classes[cls].methods["add_node"]
+        fn = py.ifunc(f"{cls}.add_node")
         for st in ast.walk(fn):
             if isinstance(st, ast.For):
                 check_loop(cls, fn, st)
